@@ -1,1 +1,151 @@
-(* placeholder, being written *)
+(* ------------------------------------------------------------------------- *)
+(*  BS.Codec.ImageCodec                                                      *)
+(*                                                                           *)
+(*  Executable model of `image_to_bin` / `bin_to_image`                      *)
+(*  (/repo/src/networking/assets/image_serde.rs).  Definitions only; proofs  *)
+(*  are in ImageCodecProofs.v.  Driven by the GENERATED tables of            *)
+(*  BSGen.ImageLayout (fields and wire types of `struct ImageData`, what     *)
+(*  initialises each field, which field each argument of `Image::new` is     *)
+(*  taken from, both dimension tables).                                      *)
+(*                                                                           *)
+(*  The texture format is carried as its NAME ON THE WIRE: wgpu-types'       *)
+(*  `TextureFormat` serializes as a string (u64 length + name), which        *)
+(*  BSGen.FormatNames tabulates from the real serializer for every format.   *)
+(*  That the real deserializer maps a name back to the format it came from   *)
+(*  is checked by the correspondence runs (every uncompressed format), the   *)
+(*  model contributes that distinct formats have distinct names              *)
+(*  (ImageCodecProofs.format_names_injective).                               *)
+(*                                                                           *)
+(*  Not modelled: `Image::new` debug-asserts that the data length is         *)
+(*  volume x pixel size (a debug build panics otherwise); the property       *)
+(*  quantifies over images that satisfy it, and the codec itself never       *)
+(*  looks at the relation between extent and data.                           *)
+(* ------------------------------------------------------------------------- *)
+
+From Coq Require Import List NArith Bool.
+From BS Require Import Codec.Schema Codec.Lz4 Codec.CodecTypes.
+From BSGen Require Import ImageLayout.
+Import ListNotations.
+Local Open Scope N_scope.
+
+Record image := mkImage {
+  width : N;                 (* u32 *)
+  height : N;                (* u32 *)
+  depth_or_layers : N;       (* u32 *)
+  dim : dimension;
+  format : list N;           (* wire name of the TextureFormat *)
+  data : list N              (* pixel bytes *)
+}.
+
+(* ---- tables of the source --------------------------------------------------- *)
+
+Definition ImageData_ty : ty := TTuple (map snd imagedata_fields).
+
+(* `match image.texture_descriptor.dimension { .. }` *)
+Definition dim_to_num (d : dimension) : N :=
+  match assoc dimension_eqb d dim_enc_table with Some n => n | None => 256 end.
+
+(* `match img.dimensions { 1 => .., .., _ => .. }` *)
+Definition num_to_dim (n : N) : dimension :=
+  match assoc N.eqb n dim_dec_table with Some d => d | None => dim_dec_default end.
+
+Definition ifield_source (f : ifield) : option isource := assoc ifield_eqb f image_enc_sources.
+
+(* ---- Image -> ImageData ---------------------------------------------------------- *)
+
+Definition ifield_val (i : image) (f : ifield) : val :=
+  match ifield_source f with
+  | Some ISrcWidth => VInt (width i)
+  | Some ISrcHeight => VInt (height i)
+  | Some ISrcDepth => VInt (depth_or_layers i)
+  | Some ISrcDimension => VInt (dim_to_num (dim i))
+  | Some ISrcFormat => VBytes (format i)
+  | Some ISrcData => VSeq (tmap VInt (data i))     (* Vec<u8> through serde derive: a seq of u8 *)
+  | None => VUnit
+  end.
+
+Definition image_data_of (i : image) : val :=
+  VTuple (map (fun ft => ifield_val i (fst ft)) imagedata_fields).
+
+(* `Some(compress::compress(&bincode::serialize(&img).ok()?))`; [None] only for an [image] that
+   is not a Rust value (bincode cannot fail on an ImageData) *)
+Definition image_to_bin (i : image) : option bytes :=
+  match enc ImageData_ty (image_data_of i) with
+  | Some b => Some (compress b)
+  | None => None
+  end.
+
+(* ---- ImageData -> Image ------------------------------------------------------------ *)
+
+Definition ienv := list (ifield * val).
+
+(* the field an argument of `Image::new` is taken from *)
+Definition arg_val (e : ienv) (s : isource) : option val :=
+  match assoc isource_eqb s image_dec_targets with
+  | Some f => assoc ifield_eqb f e
+  | None => None
+  end.
+
+Definition arg_int (e : ienv) (s : isource) : option N :=
+  match arg_val e s with Some (VInt n) => Some n | _ => None end.
+
+Definition bytes_of_seq (v : val) : option (list N) :=
+  match v with
+  | VSeq l => omap (fun x => match x with VInt n => Some n | _ => None end) l
+  | _ => None
+  end.
+
+Definition image_of_env (e : ienv) : option image :=
+  match arg_int e ISrcWidth, arg_int e ISrcHeight, arg_int e ISrcDepth, arg_int e ISrcDimension,
+        arg_val e ISrcFormat, arg_val e ISrcData with
+  | Some w, Some h, Some d, Some n, Some (VBytes f), Some dv =>
+    match bytes_of_seq dv with
+    | Some bs => Some (mkImage w h d (num_to_dim n) f bs)
+    | None => None
+    end
+  | _, _, _, _, _, _ => None
+  end.
+
+Definition image_of_data (v : val) : option image :=
+  match v with
+  | VTuple vs => image_of_env (combine (map fst imagedata_fields) vs)
+  | _ => None
+  end.
+
+(* [Ok (Some i)]: returns `Some(image)`; [Ok None]: bincode failed, returns `None`; [Panic]: the
+   `unwrap` of a failed decompression *)
+Definition bin_to_image (bs : bytes) : outcome (option image) :=
+  match decompress bs with
+  | inl _ => Panic
+  | inr raw =>
+    match dec ImageData_ty raw with
+    | None => Ok None
+    | Some (v, _) => match image_of_data v with Some i => Ok (Some i) | None => Stuck end
+    end
+  end.
+
+(* ---- stack-safe variants (extracted and run; equal to the above) ----------------------- *)
+
+Definition image_to_bin_fast (i : image) : option bytes :=
+  match enc_fast ImageData_ty (image_data_of i) with
+  | Some b => Some (compress b)
+  | None => None
+  end.
+
+Definition bin_to_image_fast (bs : bytes) : outcome (option image) :=
+  match decompress bs with
+  | inl _ => Panic
+  | inr raw =>
+    match dec_fast ImageData_ty raw with
+    | None => Ok None
+    | Some (v, _) => match image_of_data v with Some i => Ok (Some i) | None => Stuck end
+    end
+  end.
+
+(* ---- the images the property speaks about -------------------------------------------------- *)
+
+(* [i] is a Rust value: u32 extents, a byte string as format name, bytes as data *)
+Definition wf_image (i : image) : Prop :=
+  width i < 2 ^ 32 /\ height i < 2 ^ 32 /\ depth_or_layers i < 2 ^ 32
+  /\ N.of_nat (length (format i)) < 2 ^ 64 /\ Forall (fun x => x < 256) (format i)
+  /\ N.of_nat (length (data i)) < 2 ^ 64 /\ Forall (fun x => x < 256) (data i).
